@@ -1059,3 +1059,18 @@ for _p in ('C07', 'C08'):
                          'remembers two additions out of three (cached proofs with dozens of targets): leaves of the big tree go, all leaves of the low trees '
                          'go while one or two additions run over the chain of emptied roots, Undo, the same deletions with other additions, a random block, '
                          'Undo; TLC (CoreTrace) judges the roots, the positions and what the client holds after every step.')
+
+
+# --------------------------------------------------------------------------- roots with prefix-sharing leaf values, pointer forest included
+def prefix_roots(tier):
+    q = tier == 'quick'
+    st = core('prefix_roots', ['mod'], 8 if q else 9, 3 if q else 4, invariants=False)
+    st['fam'] = 'prefixroots'
+    return st
+
+
+for _p in ('C01', 'C05'):
+    PLAN[_p]['stages'] = (lambda f: (lambda tier, seed: f(tier, seed) + [prefix_roots(tier)]))(PLAN[_p]['stages'])
+    PLAN[_p]['rule'] += (' Stage prefix_roots: every block history with leaf values that share their first 12 bytes, applied to Stump, Pollard and a '
+                         'full map forest; leaf count and roots only (the pointer forest keys its leaf index by those bytes - look-ups by hash are '
+                         'ambiguous there by design - but the roots of a block must not depend on that index).')
